@@ -23,11 +23,13 @@ pub struct SubCase {
     pub map: Vec<usize>,
     /// all object variables alias one block
     pub alias: bool,
+    /// the object variables are closures / continuations (chirality cns) instead of data (prd)
+    pub cns: bool,
 }
 
 impl SubCase {
     pub fn to_json(&self) -> serde_json::Value {
-        json!({"kind": "subst", "arch": self.arch.name(), "off": self.off, "obj": self.obj, "map": self.map, "alias": self.alias})
+        json!({"kind": "subst", "arch": self.arch.name(), "off": self.off, "obj": self.obj, "map": self.map, "alias": self.alias, "cns": self.cns})
     }
     pub fn from_json(v: &serde_json::Value) -> Option<SubCase> {
         Some(SubCase {
@@ -40,13 +42,16 @@ impl SubCase {
             obj: v["obj"].as_array()?.iter().filter_map(|x| x.as_bool()).collect(),
             map: v["map"].as_array()?.iter().filter_map(|x| x.as_u64().map(|y| y as usize)).collect(),
             alias: v["alias"].as_bool()?,
+            cns: v["cns"].as_bool().unwrap_or(false),
         })
     }
 }
 
-fn binding(is_obj: bool, id: usize) -> ContextBinding {
+fn binding(is_obj: bool, id: usize, cns: bool) -> ContextBinding {
     let var = Identifier { name: "v".into(), id };
-    if is_obj {
+    if is_obj && cns {
+        ContextBinding { var, chi: Chirality::Cns, ty: ty("_Cont") }
+    } else if is_obj {
         ContextBinding { var, chi: Chirality::Prd, ty: ty("Box") }
     } else {
         ContextBinding { var, chi: Chirality::Ext, ty: Ty::I64 }
@@ -100,7 +105,7 @@ pub fn run_sub(t: &Template, c: &SubCase) -> SubVerdict {
     }
     // old and new environments
     let old_kinds: Vec<bool> = std::iter::repeat(false).take(c.off).chain(c.obj.iter().copied()).collect();
-    let old_ctx: Vec<ContextBinding> = old_kinds.iter().enumerate().map(|(i, o)| binding(*o, i + 1)).collect();
+    let old_ctx: Vec<ContextBinding> = old_kinds.iter().enumerate().map(|(i, o)| binding(*o, i + 1, c.cns)).collect();
     let src: Vec<usize> = (0..c.off).chain(c.map.iter().map(|s| c.off + *s)).collect();
     let rearrange: Vec<(ContextBinding, Identifier)> = src
         .iter()
@@ -109,7 +114,7 @@ pub fn run_sub(t: &Template, c: &SubCase) -> SubVerdict {
             // the first use of a source keeps its identifier (as the linearizer does), copies are fresh
             let first = src[..j].iter().all(|x| x != s);
             let id = if first { old_ctx[*s].var.id } else { 100 + j };
-            (binding(old_kinds[*s], id), old_ctx[*s].var.clone())
+            (binding(old_kinds[*s], id, c.cns), old_ctx[*s].var.clone())
         })
         .collect();
     let stmt: Statement = Substitute {
@@ -331,7 +336,10 @@ pub fn enumerate(tier: Tier, mut f: impl FnMut(SubCase)) {
                                 if alias && nobj < 2 {
                                     continue;
                                 }
-                                f(SubCase { arch, off, obj: obj.clone(), map: map.clone(), alias });
+                                f(SubCase { arch, off, obj: obj.clone(), map: map.clone(), alias, cns: false });
+                                if nobj > 0 {
+                                    f(SubCase { arch, off, obj: obj.clone(), map: map.clone(), alias, cns: true });
+                                }
                             }
                         }
                     }
@@ -357,7 +365,10 @@ pub fn enumerate(tier: Tier, mut f: impl FnMut(SubCase)) {
                             if alias && pat == 0 {
                                 continue;
                             }
-                            f(SubCase { arch, off, obj: obj.clone(), map: map.clone(), alias });
+                            f(SubCase { arch, off, obj: obj.clone(), map: map.clone(), alias, cns: false });
+                            if pat != 0 {
+                                f(SubCase { arch, off, obj: obj.clone(), map: map.clone(), alias, cns: true });
+                            }
                         }
                     }
                 }
@@ -393,7 +404,7 @@ pub fn worker(ctx: &WorkerCtx) -> Report {
                 rep.count("transitions", 1);
                 rep.count("instructions_emulated", insns);
                 rep.count(&format!("ok_{}", c.arch.name()), 1);
-                rep.distinct.push(hash64(&(c.arch.name(), c.off, &c.obj, &c.map, c.alias)));
+                rep.distinct.push(hash64(&(c.arch.name(), c.off, &c.obj, &c.map, c.alias, c.cns)));
                 let shape = format!(
                     "{}{}{}",
                     if c.map.len() > c.obj.len() { "grow" } else if c.map.len() < c.obj.len() { "shrink" } else { "same" },
